@@ -282,6 +282,8 @@ type fnTr struct {
 	wb       bool       // write-back mode (inout.go, wb.go): in-place updates of a value tree
 	nextRebuild *rebuildSpec // consumed by the next loop(): the collection it ranges over is rebuilt
 	wbAfterCall []*lvar      // set by selfArgs: the locals that received the in-out results of the recursive call
+	lensRet  bool            // the first result may be part of the tree below lensParam: it is returned with a put-back function
+	lensParam *lvar
 	io       *inoutInfo
 	aliases  map[types.Object][]types.Object
 	sumJoin  bool       // join mode (see branching): no duplication of what follows a branching statement
@@ -993,6 +995,7 @@ var callTable = map[string]string{
 	"strings.Split":     "go_split",
 	"strings.Index":     "go_index",
 	"strings.Replace":   "go_replace",
+	"strings.Join":      "go_join",
 	"strings.Trim":      "go_trim",
 	"bytes.Count":       "bytes_count",
 	"bytes.Replace":     "bytes_replace",
@@ -1174,6 +1177,8 @@ type extCall struct {
 	stateOut []*lvar  // reader locals passed to the callee (it consumes from them), in parameter order
 	rich     string   // the Gallina pattern kind of R for a call with stateOut: "pair" (v, err) / "triple" / "res" / "one"
 	unbox    map[*lvar]bool // out-arguments that come back as a value and are unboxed into a map / slice local
+	lensArg  *lvar          // the callee returns part of this argument's tree together with a put-back function
+	lensTy   string         // ... of this Gallina type
 }
 
 // envCalls: functions of the standard library that are part of the ENVIRONMENT of the translation (Section variables
@@ -1349,7 +1354,39 @@ func (t *fnTr) externCall(x *ast.CallExpr) (*extCall, bool) {
 		ec.results = append(ec.results, rk)
 	}
 	var rty string
+	if t.wb && t.io != nil && t.io.lens[fn] && len(ec.results) == 2 && ec.results[1] == "err" && len(ec.outArgs) == 0 && len(ec.stateOut) == 0 {
+		// the callee returns part of the tree below its first tree argument: the value and the put-back function
+		for i := 0; i < np && ec.lensArg == nil; i++ {
+			k := t.kindOfType(sig.Params().At(i).Type())
+			if k == "val" || k == "vmap" || k == "vlist" {
+				al := t.lvarOf(x.Args[i])
+				if _, isId := unparen(x.Args[i]).(*ast.Ident); !isId || al == nil || al.kind != k {
+					t.unsupported(x, "tree argument of a lens function other than a local of the parameter's type")
+				}
+				ec.lensArg = al
+				ec.lensTy = "(" + fnCoqType(ec.results[0]) + " -> " + fnCoqType(k) + ")"
+			}
+		}
+	}
 	switch {
+	case ec.lensArg != nil:
+		rty = "(res (" + fnCoqType(ec.results[0]) + " * " + ec.lensTy + "))"
+	case len(ec.results) == 1 && len(ec.outArgs) > 0 && len(ec.stateOut) == 0:
+		// a result and new values of the in-out / out arguments
+		var ts []string
+		for _, oa := range ec.outArgs {
+			if ec.unbox[oa] {
+				ts = append(ts, "value")
+			} else {
+				ts = append(ts, fnCoqType(oa.kind))
+			}
+		}
+		outs := "(" + strings.Join(ts, " * ") + ")"
+		if len(ts) == 1 {
+			outs = ts[0]
+		}
+		rk := ec.results[0]
+		rty = "(" + fnCoqType(rk) + " * " + outs + ")"
 	case len(ec.stateOut) > 0 && len(ec.outArgs) == 0:
 		switch {
 		case len(ec.results) == 2 && ec.results[1] == "err" && strings.HasPrefix(ec.results[0], "ptr:"):
@@ -1818,6 +1855,21 @@ func (t *fnTr) selfArgs(c *ast.CallExpr) []string {
 // retState: retPat without the leading quote, for use inside a larger pattern
 func (t *fnTr) retState() string { return strings.TrimPrefix(t.retPat, "'") }
 
+// isPkgFunc: is c a call of a function / method of the package being translated?
+func (t *fnTr) isPkgFunc(c *ast.CallExpr) bool {
+	var callee types.Object
+	switch f := c.Fun.(type) {
+	case *ast.Ident:
+		callee = t.p.info.Uses[f]
+	case *ast.SelectorExpr:
+		if sel, ok := t.p.info.Selections[f]; ok && sel.Kind() == types.MethodVal {
+			callee = sel.Obj()
+		}
+	}
+	fn, ok := callee.(*types.Func)
+	return ok && fn.Pkg() == t.p.pkg
+}
+
 func (t *fnTr) isSelfCall(c *ast.CallExpr) bool {
 	id, ok := c.Fun.(*ast.Ident)
 	return ok && t.self != nil && t.p.info.Uses[id] == t.self
@@ -1889,6 +1941,10 @@ func (t *fnTr) pairResult() bool {
 }
 
 func (t *fnTr) resultOnly() string {
+	if t.lensRet && len(t.resKind) == 2 && t.resKind[1] == "err" && t.lensParam != nil {
+		// (T, error) with T part of the parameter's tree: the value and the function that puts a new value back in its place
+		return "(res (" + fnCoqType(t.resKind[0]) + " * (" + fnCoqType(t.resKind[0]) + " -> " + fnCoqType(t.lensParam.kind) + ")))"
+	}
 	if t.pairResult() {
 		return "(" + fnCoqType(t.resKind[0]) + " * (option err))"
 	}
@@ -2110,7 +2166,52 @@ func (t *fnTr) isZeroExpr(e ast.Expr) bool {
 	return false
 }
 
+// putBack: the function that stores a new value of the alias lv back into the lens parameter's tree
+func (t *fnTr) putBack(lv *lvar) string {
+	return "(fun x_ => let " + lv.name + " := x_ in " + t.writeBackStr(lv) + t.lensParam.name + ")"
+}
+
 func (t *fnTr) retExpr(x *ast.ReturnStmt) string {
+	if t.lensRet && len(t.resKind) == 2 && len(x.Results) == 2 && t.p.info.Types[x.Results[1]].IsNil() && !t.p.info.Types[x.Results[0]].IsNil() {
+		// return v, nil with v part of the parameter's tree
+		vl := t.lvarOf(x.Results[0])
+		if _, isId := unparen(x.Results[0]).(*ast.Ident); !isId || vl == nil || vl.kind != t.resKind[0] {
+			t.unsupported(x, "a lens function returning something other than a variable of the result type")
+		}
+		root := vl
+		for root.origin != nil {
+			root = root.origin.parent
+		}
+		if root != t.lensParam {
+			t.unsupported(x, "a lens function returning a value that is not taken from its tree parameter")
+		}
+		return "Ret " + t.withState("(Ok ("+vl.name+", "+t.putBack(vl)+"))")
+	}
+	if t.lensRet && len(x.Results) == 1 {
+		if c, ok := x.Results[0].(*ast.CallExpr); ok && t.isSelfCall(c) {
+			// return self(..., child, ...): the child's lens composed with the way back from the child
+			mark := len(t.guards)
+			var child *lvar
+			sig := t.self.Type().(*types.Signature)
+			var args []string
+			for i, a := range c.Args {
+				k := t.kindOfType(sig.Params().At(i).Type())
+				if al := t.lvarOf(a); al != nil && al.origin != nil && child == nil && (k == "val" || k == "vmap" || k == "vlist") {
+					child = al
+				}
+				if k == "val" {
+					args = append(args, t.boxVal(a))
+				} else {
+					args = append(args, t.expr(a))
+				}
+			}
+			if child == nil {
+				t.unsupported(x, "a lens function calling itself on something that is not part of its tree parameter")
+			}
+			t.recurs = true
+			return t.wrap(mark, "bindr ("+fnPrefix+t.self.Name()+" fuel_ st "+strings.Join(args, " ")+")\n  (fun rr_ => match rr_ with Ok (sub_, put_) => Ret (Ok (sub_, (fun x_ => let "+child.name+" := put_ x_ in "+t.writeBackStr(child)+t.lensParam.name+"))) | Err e_ => Ret (Err e_) | Panic => Crash end)")
+		}
+	}
 	if t.pairResult() && len(x.Results) == 2 {
 		mark := len(t.guards)
 		var v string
@@ -2209,6 +2310,34 @@ func (t *fnTr) retExpr(x *ast.ReturnStmt) string {
 	switch {
 	case len(t.resKind) == 0 && len(x.Results) == 0 && len(t.state) > 0:
 		return "Ret " + tupleVal(t.state)
+	case len(t.resKind) == 1 && len(x.Results) == 1 && t.resKind[0] == "err" && func() bool { c, ok := x.Results[0].(*ast.CallExpr); return ok && !t.isSelfCall(c) && t.isPkgFunc(c) }():
+		// return f(args): the callee's error; its in-out arguments come back and are written back first
+		mark := len(t.guards)
+		ec, ok := t.externCall(x.Results[0].(*ast.CallExpr))
+		if !ok || len(ec.results) != 1 || ec.results[0] != "err" || len(ec.stateOut) != 0 {
+			t.unsupported(x, "returned call with this signature")
+		}
+		if len(ec.outArgs) == 0 {
+			return t.wrap(mark, "Ret "+t.withState(ec.term))
+		}
+		var ps []string
+		unb, wbs := "", ""
+		for _, oa := range ec.outArgs {
+			if ec.unbox[oa] {
+				ps = append(ps, oa.name+"_b")
+				ctor := "VMap"
+				if oa.kind == "vlist" {
+					ctor = "VList"
+				}
+				unb += "let " + oa.name + " := match " + oa.name + "_b with " + ctor + " x_ => x_ | _ => " + oa.name + " end in "
+			} else {
+				ps = append(ps, oa.name)
+			}
+			if t.wb {
+				wbs += t.writeBackStr(oa)
+			}
+		}
+		return t.wrap(mark, "let '(re_, "+strings.Join(ps, ", ")+") := "+ec.term+" in "+unb+wbs+"Ret "+t.withState("re_"))
 	case len(t.resKind) == 1 && len(x.Results) == 1 && t.resKind[0] == "err":
 		e, ok := t.errExpr(x.Results[0])
 		if !ok {
@@ -2390,6 +2519,22 @@ func (t *fnTr) stmts(list []ast.Stmt, end func() string) string {
 			}
 		}
 		if ok {
+			if id, isId := c.Fun.(*ast.Ident); isId && id.Name == "delete" && len(c.Args) == 2 {
+				if _, isB := t.p.info.Uses[id].(*types.Builtin); isB {
+					// delete(m, k) on a map that is part of the tree being updated (write-back mode) or made by this function
+					ml := t.lvarOf(c.Args[0])
+					if ml == nil || ml.kind != "vmap" || !(ml.ownedMap() || (t.wb && (ml.origin != nil || ml.isState))) {
+						t.unsupported(s, "delete on something other than a local map")
+					}
+					mark := len(t.guards)
+					k := t.expr(c.Args[1])
+					wbs := ""
+					if t.wb {
+						wbs = t.writeBackStr(ml)
+					}
+					return t.wrap(mark, "let "+ml.name+" := del "+k+" "+ml.name+" in "+wbs+"\n  "+next())
+				}
+			}
 			if se, isSel := c.Fun.(*ast.SelectorExpr); isSel && se.Sel.Name == "UseNumber" && len(c.Args) == 0 {
 				if id, isId := se.X.(*ast.Ident); isId {
 					if dl, okL := t.locals[t.p.info.Uses[id]]; okL && dl.kind == "jdecoder" {
@@ -2698,6 +2843,18 @@ func (t *fnTr) assign(x *ast.AssignStmt, next func() string) string {
 						return t.wrap(mark, "match "+ec.term+" with None => Crash | Some (Panic, _) => Crash | Some (rr_, "+tuplePat(ec.stateOut)+") =>\n  let '("+va+", "+vb+") := match rr_ with Ok v => (v, None) | Err e => ("+fnZero(ec.results[0])+", Some e) | Panic => ("+fnZero(ec.results[0])+", None) end in\n  "+next()+" end")
 					}
 					t.unsupported(x, "two-value external call with this signature")
+				}
+				if ec.lensArg != nil {
+					t.fresh++
+					rr := fmt.Sprintf("rr%d", t.fresh)
+					t.guards = append(t.guards, "match "+ec.term+" with Panic => Crash | "+rr+" =>")
+					va, vb := bind(a, ec.results[0]), bind(b, "errv")
+					put := t.newLocal(nil, a.Name+"_put", "tok").name
+					if al := t.lvarOf(a); al != nil {
+						al.origin = &aliasOrigin{parent: ec.lensArg, how: "lens", key: put}
+					}
+					z := fnZero(ec.results[0])
+					return t.wrap(mark, "let '("+va+", "+put+", "+vb+") := match "+rr+" with Ok (v_, p_) => (v_, p_, None) | Err e => ("+z+", (fun _ => "+ec.lensArg.name+"), Some e) | Panic => ("+z+", (fun _ => "+ec.lensArg.name+"), None) end in\n  "+next())
 				}
 				t.fresh++
 				rr := fmt.Sprintf("rr%d", t.fresh)
@@ -3678,6 +3835,15 @@ func (t *fnTr) typeSwitch(x *ast.TypeSwitchStmt, rest []ast.Stmt, end func() str
 								t.unsupported(te, "type switch case of this type")
 							}
 							lv := t.newLocal(obj, bindId.Name, bk)
+							if t.wb && (bk == "vmap" || bk == "vlist") {
+								if gl := t.lvarOf(guard.X); gl != nil {
+									how := "asmap"
+									if bk == "vlist" {
+										how = "aslist"
+									}
+									lv.origin = &aliasOrigin{parent: gl, how: how}
+								}
+							}
 							bn = lv.name
 							pat = bp + bn
 							break
@@ -3945,7 +4111,25 @@ func (t *fnTr) rangeStmt(x *ast.RangeStmt, rest []ast.Stmt, end func() string) s
 	case "vmaps":
 		out = withIndex("vmap", "entries")
 	case "vmap":
-		out = t.loop(x, x.Body, xs, func() string { return "'(" + name(x.Key, "str") + ", " + name(x.Value, "val") + ")" }, "(str * value)", rest, end)
+		out = t.loop(x, x.Body, xs, func() string {
+			kn, vn := name(x.Key, "str"), name(x.Value, "val")
+			if t.wb && vn != "_" {
+				// the entry is part of the tree below the map: remember where it came from
+				var parent *lvar
+				if ta, ok := unparen(x.X).(*ast.TypeAssertExpr); ok {
+					parent = t.lvarOf(ta.X)
+				} else {
+					parent = t.lvarOf(x.X)
+				}
+				if kn == "_" {
+					kn = t.newLocal(nil, "rk", "str").name
+				}
+				if vl := t.lvarOf(x.Value); vl != nil && parent != nil {
+					vl.origin = &aliasOrigin{parent: parent, how: "mapkey", key: kn}
+				}
+			}
+			return "'(" + kn + ", " + vn + ")"
+		}, "(str * value)", rest, end)
 	case "xattrs":
 		// for _, v := range attrs: v is a COPY of the attribute (a struct): one local per field, assignable in the body
 		rxs := xs
@@ -4249,7 +4433,7 @@ func constTable(p *pkgInfo, vs *ast.ValueSpec, i int) (string, bool) {
 
 // the functions translated into Pure_gen.v ("Recv.Method" for methods)
 var pureFuncs = []string{"cast", "escapeChars", "parsePath", "getSubKeyMap", "hasSubKeys", "Map.PathForKeyShortest", "valuesForKeyPath", "hasKey", "hasKeyPath", "getLeafNodes",
-	"Map.ValuesForKey", "Map.oldValuesForPath", "Map.ValuesForPath", "Map.LeafNodes", "getJson", "NewMapJsonReader", "NewMapJsonReaderRaw", "Map.Exists", "Map.ValueForPath", "Map.ValueForKey", "Map.LeafPaths", "Map.LeafValues", "valuesForArray", "Map.PathsForKey", "byteReader.ReadByte", "teeReader.ReadByte", "Maps.JsonString", "Maps.JsonStringIndent", "Maps.XmlString", "Maps.XmlStringIndent", "BeautifyXml", "Map.Copy", "Map.Json", "Map.Root", "NewMapXml", "NewMapXmlSeq", "lastKey", "xmlToMapParser", "xmlSeqToMapParser", "Map.JsonWriter", "Map.JsonWriterRaw", "Map.JsonIndentWriter", "Map.JsonIndentWriterRaw", "Map.XmlWriter", "Map.XmlIndentWriter", "MapSeq.XmlWriter", "MapSeq.XmlIndentWriter", "mapToXmlSeqIndent", "pretty.Indent", "pretty.Outdent", "elemListSeq.Less", "marshalMapToXmlIndent", "attrList.Less", "elemList.Less", "NewMapJson", "updateValueForKey", "updateValue", "updateValuesForKeyPath", "Map.UpdateValuesForPath"}
+	"Map.ValuesForKey", "Map.oldValuesForPath", "Map.ValuesForPath", "Map.LeafNodes", "getJson", "NewMapJsonReader", "NewMapJsonReaderRaw", "Map.Exists", "Map.ValueForPath", "Map.ValueForKey", "Map.LeafPaths", "Map.LeafValues", "valuesForArray", "Map.PathsForKey", "byteReader.ReadByte", "teeReader.ReadByte", "Maps.JsonString", "Maps.JsonStringIndent", "Maps.XmlString", "Maps.XmlStringIndent", "BeautifyXml", "Map.Copy", "Map.Json", "Map.Root", "NewMapXml", "NewMapXmlSeq", "lastKey", "xmlToMapParser", "xmlSeqToMapParser", "Map.JsonWriter", "Map.JsonWriterRaw", "Map.JsonIndentWriter", "Map.JsonIndentWriterRaw", "Map.XmlWriter", "Map.XmlIndentWriter", "MapSeq.XmlWriter", "MapSeq.XmlIndentWriter", "mapToXmlSeqIndent", "pretty.Indent", "pretty.Outdent", "elemListSeq.Less", "marshalMapToXmlIndent", "attrList.Less", "elemList.Less", "NewMapJson", "updateValueForKey", "updateValue", "updateValuesForKeyPath", "Map.UpdateValuesForPath", "prevValueByPath", "remove", "renameKey", "Map.Remove", "Map.RenameKey", "parentPath"}
 
 // joinMode: functions translated in join mode (see branching): the statements after an if / switch are translated
 // once instead of into every branch.  The continuation-passing translation of the other functions is kept as it is
@@ -4401,6 +4585,9 @@ func genPure(p *pkgInfo) string {
 				externs: &externs, structs: structs, escaped: map[types.Object]bool{}}
 			t.sumJoin, t.curS, t.lenient = joinMode[qname], "unit", lenientFuncs[qname]
 			t.io, t.wb, t.aliases = ioInfo, writeBackFuncs[qname], aliasGraph(p, fn)
+			if fo, ok := p.info.Defs[fn.Name].(*types.Func); ok && t.wb && ioInfo.lens[fo] {
+				t.lensRet = true
+			}
 			params := ""
 			t.stateAt = map[int]*lvar{}
 			if fobj, ok := p.info.Defs[fn.Name].(*types.Func); ok {
@@ -4474,6 +4661,9 @@ func genPure(p *pkgInfo) string {
 				t.locals[obj] = lv
 				t.used[n] = 1
 				params += fmt.Sprintf(" (%s : %s)", n, fnCoqType(k))
+				if t.lensRet && t.lensParam == nil && (k == "val" || k == "vmap" || k == "vlist") {
+					t.lensParam = lv
+				}
 				ioPos := pos
 				if isRecv {
 					ioPos = -1
